@@ -63,4 +63,74 @@ theorem waitPush_fifo (k : Key) (e : WEnt) (h : k.waitPrio = false) :
         rw [q3]
         split <;> rfl
 
+theorem prOf_dead (k : Key) (y : Nat) (h : ¬ k.hasRec y) : prOf k y = 0 := by
+  unfold prOf; rw [getR_of_not_hasRec k y h]
+  show Engine.cmdPriority (default : Engine.Cmd) = 0
+  decide
+
+theorem foldl_insertPrio_head (l : List WEnt) (y : WEnt) (t : List WEnt) (h : ∀ z ∈ l, z.prio ≤ y.prio) :
+    ∃ t', l.foldl insertPrio (y :: t) = y :: t' := by
+  induction l generalizing t with
+  | nil => exact ⟨t, rfl⟩
+  | cons a as ih =>
+    simp only [List.foldl_cons]
+    have : insertPrio (y :: t) a = y :: insertPrio t a := by
+      conv => lhs; unfold insertPrio
+      rw [if_neg (Nat.not_lt.mpr (h a (by simp)))]
+    rw [this]
+    exact ih (insertPrio t a) (fun z hz => h z (List.mem_cons_of_mem _ hz))
+
+theorem mem_foldl_insertPrio (l acc : List WEnt) (x : WEnt) : x ∈ l.foldl insertPrio acc ↔ x ∈ acc ∨ x ∈ l := by
+  induction l generalizing acc with
+  | nil => simp
+  | cons a as ih =>
+    simp only [List.foldl_cons]
+    rw [ih, insertPrio_mem']
+    simp only [List.mem_cons]
+    constructor
+    · rintro ((h | h) | h)
+      · exact Or.inr (Or.inl h)
+      · exact Or.inl h
+      · exact Or.inr (Or.inr h)
+    · rintro (h | h | h)
+      · exact Or.inl (Or.inr h)
+      · exact Or.inl (Or.inl h)
+      · exact Or.inr h
+
+/-- every entry of the queue after `AddWaitLock(rid)` is the new one or (a re-filed copy of) an old one -/
+theorem addWaitLock_mem (k : Key) (rid : Nat) (x : WEnt) (hx : x ∈ (k.addWaitLock rid).wait) :
+    x = ⟨rid, Engine.cmdPriority (k.getR rid).cmd⟩ ∨ (∃ y ∈ k.wait, x = y ∨ x = recache k y) := by
+  rw [(addWaitLock_pre k rid).1] at hx
+  cases hr : rePushes k rid with
+  | true =>
+    rw [hr] at hx
+    simp only [if_true] at hx
+    rw [(waitPush_prio k.rePush _ (rePush_wait k).2).1, (rePush_wait k).1, insertPrio_mem', mem_foldl_insertPrio] at hx
+    rcases hx with h | h | h
+    · exact Or.inl h
+    · simp at h
+    · obtain ⟨y, hy, e⟩ := List.mem_map.mp h
+      exact Or.inr ⟨y, hy, Or.inr e.symm⟩
+  | false =>
+    rw [hr] at hx
+    simp only [Bool.false_eq_true, if_false] at hx
+    cases hp : k.waitPrio with
+    | true =>
+      rw [(waitPush_prio k _ hp).1, insertPrio_mem'] at hx
+      rcases hx with h | h
+      · exact Or.inl h
+      · exact Or.inr ⟨x, h, Or.inl rfl⟩
+    | false =>
+      rcases (waitPush_fifo k ⟨rid, Engine.cmdPriority (k.getR rid).cmd⟩ hp).2 with e | e
+      · rw [e] at hx
+        rcases List.mem_append.mp hx with h | h
+        · exact Or.inr ⟨x, h, Or.inl rfl⟩
+        · exact Or.inl (by simpa using h)
+      · rw [e] at hx
+        rcases List.mem_append.mp hx with h | h
+        · exact Or.inr ⟨x, (List.mem_filter.mp h).1, Or.inl rfl⟩
+        · exact Or.inl (by simpa using h)
+
+theorem addWaitLock_waited (k : Key) (rid : Nat) : (k.addWaitLock rid).waited = true := rfl
+
 end Slock.Sim
